@@ -543,6 +543,39 @@ def total_cases(rng, pools, tier):
             add("U", " ".join(toks[:pos] + [toks[pos]] + toks[pos:]), [cfg])
             if pos + 1 < len(toks):
                 add("U", " ".join(toks[:pos] + [toks[pos + 1], toks[pos]] + toks[pos + 2:]), [cfg])
+    # ---- labelled: an operator that takes no operand followed by a stray operand; an operator squeezed between an
+    # operand of a multi-operand operator and the `,` that separates it from the next operand
+    nl = 60 if tier == "quick" else 600
+    for i in range(nl):
+        b0 = g.branch(rng.choice([0, 2, 4]))
+        rest = ", ".join(g.branch(2).render(lambda: " ") for _ in range(rng.randint(0, 2)))
+        tail = (", " + rest if rest else "") + rng.choice(["", "", ", map => |a| a", ", then => |a| a"])
+        stray = rng.choice(["junk", "0", "|v| v", "f(1)", "{ x }", "Some(1)", "x.y"])
+        nullary = rng.choice(["^^>", "|n>", "=> >>> |> f <<<", "|> >>> <<<"])
+        cont = rng.choice(["", " |> g", " ~-> h"])
+        add("I:operand_after_nullary", "%s %s %s%s%s" % (b0.render(lambda: " "), nullary, stray, cont, tail), [rng.randrange(8)])
+        squeezed = rng.choice(["|>", "<<<", "~=> >>>", "??", "=>", "^^>", "~|n>", "->", "<|", ">>>"])
+        multi = rng.choice(["^@ 0 %s , |a, v| a + v", "?^@ 0 %s , |a, v| Some(a + v)", "<-> A, B %s , Vec<A>, Vec<B>", "<-> A %s , B, Vec<A>, Vec<B>", "<-> A, B, Vec<A> %s , Vec<B>"]) % squeezed
+        add("I:operator_in_operand_list", "%s %s%s%s" % (b0.render(lambda: " "), multi, cont, tail), [rng.randrange(8)])
+    # ---- conservation: inputs whose every user expression carries a marker identifier, mutated by random token edits;
+    # whatever is still accepted must contain each marker exactly as often as the input does (lab total checks it)
+    nm = 1500 if tier == "quick" else 15000
+    mrows = marker_cases(rng, pools, "quick")
+    for i in range(nm):
+        base = mrows[rng.randrange(len(mrows))][2].split(" ")
+        for _ in range(rng.randint(1, 2)):
+            pos = rng.randint(0, len(base))
+            r = rng.random()
+            if r < 0.3 and base:
+                del base[min(pos, len(base) - 1)]
+            elif r < 0.6:
+                base.insert(pos, rng.choice(["__m9%d" % rng.randint(0, 99), "__m9%d(1)" % rng.randint(0, 99), "|v| __m9%d(v)" % rng.randint(0, 99)]))
+            elif r < 0.85:
+                base.insert(pos, rng.choice(VOCAB))
+            elif base:
+                q = min(pos, len(base) - 1)
+                base[q], base[q - 1] = base[q - 1], base[q]
+        add("U", " ".join(base), [rng.randrange(8)])
     # ---- unlabelled: random token soups and random edits of valid inputs
     nsoup = 3000 if tier == "quick" else 40000
     for i in range(nsoup):
